@@ -338,12 +338,14 @@ func vcNewNet(t *testing.T, in *vcInput, runID int) *vcNet {
 	for _, b := range in.Byz {
 		net.byz[b] = true
 	}
+	// the proposer of round r as every node that walks the rounds computes it (one increment per round; a node that
+	// skips rounds does the same since /repo 5558f05)
+	vsr := st.Validators
 	for r := 0; r <= in.MaxRound+1; r++ {
-		vs := st.Validators
 		if r > 0 {
-			vs = st.Validators.CopyIncrementProposerPriority(int32(r))
+			vsr = vsr.CopyIncrementProposerPriority(1)
 		}
-		net.propSeq = append(net.propSeq, net.addrName[vs.GetProposer().Address.String()])
+		net.propSeq = append(net.propSeq, net.addrName[vsr.GetProposer().Address.String()])
 	}
 	if in.Mode == "info" {
 		return net
